@@ -21,6 +21,7 @@ PROP = dict(
     harnesses=[
         H(ST, "c44", "c44_corr", "add_correction = exact integer arithmetic and does not panic when the corrected time is representable (|correction| < 2^32 ns)"),
         H(ST, "c44", "c44_to_ntp", "convert_to_ntp: epoch shift mod 2^32 and exact binary fraction, no panic"),
+        H(ST, "c44", "c44_collect_s", "collect_response, script of one Sync(+response TLV): one-step answer used iff well-formed, domain and sequence id match and a receive timestamp exists; otherwise keeps waiting", timeout=600),
         H(ST, "c44", "c44_collect", "collect_response, script Sync(+response TLV), Follow_Up: equals the reference state machine - measurement only from matching domain+sequence id, fields taken from the right datagrams, nothing read after completion", timeout=600),
         H(ST, "c44", "c44_collect_fs", "script Follow_Up, Sync (follow-up first)", timeout=600),
         H(ST, "c44", "c44_corr_40", "add_correction for |correction| < 2^40 ns (18 min)", tier="thorough", timeout_thorough=1800),
